@@ -13,4 +13,6 @@ rm -rf "$V"
 SP=$("$V/bin/python" -c "import sysconfig; print(sysconfig.get_paths()['purelib'])")
 printf '/venv/lib/python3.12/site-packages\n/repo\n' > "$SP/verif_overlay.pth"
 PIP_NO_INDEX=1 "$V/bin/pip" install -q --no-index --find-links /opt/veriftools/wheels crosshair-tool z3-solver >/dev/null
+# cvc5 (second-opinion solver for engine E2, thorough tier); best effort
+PIP_NO_INDEX=1 "$V/bin/pip" install -q --no-index --find-links /opt/veriftools/wheels cvc5 >/dev/null 2>&1 || echo "bootstrap: cvc5 wheel not installable (cross-check disabled)"
 "$V/bin/python" -c "import crosshair, z3, pane; print('bootstrap ok: crosshair', crosshair.__version__ if hasattr(crosshair,'__version__') else '', 'z3', z3.get_version_string())"
